@@ -44,7 +44,7 @@ def run(chk: core.Check, tier: str, seed: int) -> None:
     n_short = len(texts)
     # strings not starting with '$'
     texts += ["", " $", "a", "@", "@.a", ".a", "[0]", "$$", "\n$", "$.a$", "x$"]
-    texts += corpus.literal_queries() + corpus.skeletons(rng, 2 if tier != "quick" else 1)
+    texts += corpus.literal_queries() + corpus.skeletons(rng, 2 if tier != "quick" else 1) + corpus.SEEDS_INVALID_INTS
     n_seq = 15000 if tier == "quick" else 400000
     for _ in range(n_seq):
         k = rng.randint(1, 9)
